@@ -124,6 +124,18 @@ func (g *Gen) verifyFunction(fn *ssa.Function, c *Contract) (res *VCResult) {
 		for _, r := range c.Requires {
 			g.assume("true", g.clauseEnv(env0, r))
 		}
+		for _, u := range c.Uses {
+			rel := ""
+			if p := g.pkgOfContract(c); p != nil {
+				rel = relPkg(p.Path())
+			}
+			ax := axioms[rel+"."+u]
+			if ax == nil {
+				cerr("uses %s: no such axiom in package %s", u, rel)
+			}
+			g.assume("true", g.clauseEnv(env0, ax))
+			g.trusted["axiom "+u+" (defining equation of a spec function, "+ax.Line+")"] = true
+		}
 	}
 	if c != nil && !c.ModAll && !c.Assumed {
 		g.setupFrame(f, c, env0)
